@@ -230,6 +230,44 @@ class Exec:
     def const(self, name, t):
         return SV(t, z3.Const(name, t.sort()))
 
+    def define(self, st, z):
+        """Assume a DEFINITIONAL axiom (a fact that merely defines an uninterpreted function of the terms it
+        mentions - e.g. flatten(x) in terms of x - and therefore holds for every value, whatever guards and binder
+        ranges are active): it is quantified over the binder variables it mentions only, restricted by the range
+        conjuncts that speak about those variables alone.  Never use this for facts that depend on the guards."""
+        if not st.binders:
+            st.hyps.append(z)
+            return
+        used = consts_in(z)
+        vs, conds = [], []
+        for (vars_, c) in st.binders:
+            mine = [v for v in vars_ if v.get_id() in used]
+            if not mine:
+                continue
+            vs += mine
+            others = {v.get_id() for v in vars_ if v.get_id() not in used}
+            for cj in (c.children() if z3.is_and(c) else [c]):
+                if not (consts_in(cj) & others):
+                    conds.append(cj)
+        if not vs:
+            st.hyps.append(z)
+            return
+        cond = z3.And(*conds) if conds else z3.BoolVal(True)
+        if z3.is_quantifier(z) and z.is_forall() and z.num_patterns() > 0:
+            inner = [self.bvar(z.var_name(i), z.var_sort(i)) for i in range(z.num_vars())]
+            body = z3.substitute_vars(z.body(), *reversed(inner))
+            pats = []
+            for k in range(z.num_patterns()):
+                p = z.pattern(k)
+                terms = [z3.substitute_vars(p.arg(m), *reversed(inner)) for m in range(p.num_args())]
+                pats.append(z3.MultiPattern(*terms) if len(terms) > 1 else terms[0])
+            try:
+                st.hyps.append(z3.ForAll(vs + inner, z3.Implies(cond, body), patterns=pats))
+                return
+            except z3.Z3Exception:
+                pass
+        st.hyps.append(z3.ForAll(vs, z3.Implies(cond, z)))
+
     def assume(self, st, z):
         if st.guards:
             z = z3.Implies(z3.And(*st.guards), z)
